@@ -22,7 +22,8 @@ def run(tier, seed):
     if not r.ok:
         v.violation("model/" + str(r.violation), "Stark.tla: %s" % r.violation, {"tlc": r.out[-2000:]})
     # the toy field has two-adicity 13 and no cubic extension issues; base-field composition only
-    stmts = [s for s in stmts if s["t"]["width"] <= 9 and s["t"]["ln"] + s["t"]["lb"] <= 12 and s["t"]["ln"] <= 7]
+    # Trace_Comp transcribes the definition for single-segment descriptions; statements with an auxiliary segment are not judged here
+    stmts = [s for s in stmts if s["t"]["width"] <= 9 and s["t"]["ln"] + s["t"]["lb"] <= 12 and s["t"]["ln"] <= 7 and not s["t"]["auxd"]]
     # make sure large assertion sequences and all five assertion kinds are present
     extra = []
     for s in stmts:
